@@ -92,11 +92,12 @@ def build(targets=None, timeout=1500):
 def grep_forbidden():
     """No Admitted/Axiom/Parameter/... anywhere in the development."""
     hits = []
-    for root, _, files in os.walk(os.path.join(COQ, "theories")):
-        for f in files:
-            if not f.endswith(".v"):
+    listed = [l.strip() for l in open(os.path.join(COQ, "_CoqProject")) if l.strip().endswith(".v")]
+    for rel in listed:
+        if True:
+            p = os.path.join(COQ, rel)
+            if not os.path.exists(p):
                 continue
-            p = os.path.join(root, f)
             txt = open(p, encoding="utf8").read()
             # strip comments (non-nested is enough: we never nest them around code)
             txt2 = re.sub(r"\(\*.*?\*\)", " ", txt, flags=re.S)
